@@ -124,13 +124,18 @@ impl Problem {
     }
 
     pub fn rename_conflicting_symbols(mut self) -> Self {
-        let propositional_predicates =
-            IndexSet::from_iter(self.predicates().into_iter().filter(|p| p.arity == 0));
+        // A symbolic constant must not share its name with any predicate, whatever its arity:
+        // TPTP identifies symbols by name only. (Conflicts are looked up as name/0.)
+        let conflicting_predicates =
+            IndexSet::from_iter(self.predicates().into_iter().map(|p| Predicate {
+                symbol: p.symbol,
+                arity: 0,
+            }));
 
         let formulas = self
             .formulas
             .into_iter()
-            .map(|f| f.rename_conflicting_symbols(&propositional_predicates))
+            .map(|f| f.rename_conflicting_symbols(&conflicting_predicates))
             .collect();
         self.formulas = formulas;
         self
